@@ -16,7 +16,7 @@ PROGS = ["fn", "fn-async-bounds", "fn-byvalue", "mod", "concrete", "trait-self",
          "trait-self-named-as_ref", "concrete-named-as_ref", "trait-self-byvalue"]
 
 
-def render(prog, name, case, nostd=False):
+def render(prog, name, case, nostd=False, dname="DelegateN"):
     """returns (items, run body producing a result String `r`, availability probes [(label, type expr, trait expr)])"""
     N = name
     if prog == "fn":
@@ -68,10 +68,10 @@ def render(prog, name, case, nostd=False):
         dyn = prog == "di-dyn-at"
         at = "#[::async_trait::async_trait]\n" if dyn else ""
         a = "async " if dyn else ""
-        attr = "NImpl, delegate_by = ref" if dyn else "NImpl, delegate_by = DelegateN"
+        attr = "NImpl, delegate_by = ref" if dyn else f"NImpl, delegate_by = {dname}"
         ea = "#[::entrait::entrait(ref)]" if dyn else "#[::entrait::entrait]"
         glue = ("impl ::core::convert::AsRef<dyn NImpl<Self> + ::core::marker::Sync> for App { fn as_ref(&self) -> &(dyn NImpl<Self> + ::core::marker::Sync + 'static) { &X } }"
-                if dyn else "impl DelegateN<Self> for App { type Target = X; }")
+                if dyn else f"impl {dname}<Self> for App {{ type Target = X; }}")
         items = (f"#[::entrait::entrait({attr})]\n{at}pub trait {N} {{ {a}fn m(&self, target: i32, this: i32) -> i32; }}\npub struct X;\n{ea}\n{at}"
                  f"impl NImpl for X {{ pub {a}fn m<D: ::core::marker::Sync>(deps: &D, target: i32, this: i32) -> i32 {{ target + 5 + this * 0 }} }}\npub struct App;\n{glue}\n")
         call = f"<::entrait::Impl<App> as {N}>::m(&app, 1, 50)"
@@ -104,8 +104,8 @@ def render(prog, name, case, nostd=False):
     return items, run, probes
 
 
-def source(prog, name, shadows, case, with_run=True):
-    items, run, probes = render(prog, name, case, nostd=not with_run)
+def source(prog, name, shadows, case, with_run=True, dname="DelegateN"):
+    items, run, probes = render(prog, name, case, nostd=not with_run, dname=dname)
     defs = "\n".join(SHADOW_DEFS[s].replace("{NAME}", name) for s in shadows)
     if "no-prelude" in shadows:
         defs = "#![no_implicit_prelude]\n" + defs
